@@ -76,6 +76,67 @@ def _flatten_add(x):
     return [x]
 
 
+def _splice_rule(ctx):
+    """C06.R12: an instance(...) expression inside a label becomes an <output/> element spliced into the ESCAPED text;
+    the text before and after it must come out as the escaped original, whatever markup characters it contains (the
+    offsets of the splice are computed on the same string they are applied to)."""
+    from .. import trees
+    from .c10 import scan_tokens
+    r = Rule("C06", "C06.R12", "instance-expression splice keeps the surrounding text", floor=12,
+             necessary="offsets taken from one string and applied to another cut the author's text and leak expression fragments into it")
+    scls = ctx.repo.cls("pyxform.survey:Survey")
+    iov = scls.methods["insert_output_values"]
+    rules_map = ctx.consts.get("pyxform.parsing.expression", "LEXER_RULES", "C06.R12")
+
+    def h_parse(i, a, k, n):
+        text = a[0] if a else k.get("text")
+        toks, rest = scan_tokens(rules_map, text, with_spans=True)
+        return ([Obj(None, {"name": nm, "value": v, "start": st, "end": en}, name=f"tok:{nm}") for nm, v, st, en in toks], rest)
+
+    def esc(t):
+        return t.replace("&", "&amp;").replace("<", "&lt;").replace(">", "&gt;")
+
+    expr = "instance('l')/root/item[name = 'a']/label"
+    survey, by_name, _all = trees.build(ctx, ("data", [("q", "q1")]))
+    it0_ = ctx.interp("C06.R12")
+    it0_.reset([])
+    it0_.call_function(scls.methods["_setup_xpath_dictionary"], [survey], {}, None, None)
+    for pre in ("", "plain ", "x > y ", "R&D ", "<b>bold</b> ", "a & b > c "):
+        for post in ("", " tail", " & more", " <i>"):
+            src = f"{pre}{expr}{post}"
+            def h_node(i, a, k, n):
+                # a concrete stand-in for the <output/> element: the splice arithmetic needs its length
+                return Obj(None, {"toxml": lambda i2, a2, k2, n2, v=k.get("value"): f"<output value=\"{v}\"/>"}, name="output-node")
+            it = ctx.interp("C06.R12", hooks={"fnname:parse_expression": h_parse, "fnname:node": h_node})
+            it.reset([])
+            try:
+                out = it.call_function(iov, [survey, src, by_name["q1"]], {}, None, iov.node)
+            except Raised as e:
+                r.fail(f"splice[{pre!r} + instance(...) + {post!r}]", f"evaluates ({e.exc_name}{e.exc_args})", iov.loc())
+                continue
+            text = out[0] if isinstance(out, tuple) else out
+            if isinstance(text, SymStr):
+                text = text.text()
+            m_ = re.search(r"<output value=\"[^\"]*\"/>", text) if isinstance(text, str) else None
+            before = text[: m_.start()] if m_ else text
+            after = text[m_.end():] if m_ else ""
+            n_out = len(re.findall(r"<output ", text)) if isinstance(text, str) else 0
+            ok = n_out == 1 and before == esc(pre) and after == esc(post) and (isinstance(out, tuple) and out[1] is True)
+            syms = [None] * n_out
+            r.check(ok, f"splice[{pre!r} + instance(...) + {post!r}]", "escaped text before + one <output/> + escaped text after, flagged as markup", iov.loc(),
+                    why_fail=f"before={before!r} after={after!r} outputs={len(syms)}")
+    return r
+
+
+def flatten_symstr(v):
+    if isinstance(v, SymStr):
+        out = []
+        for p_ in v.parts:
+            out.extend(flatten_symstr(p_))
+        return out
+    return [v]
+
+
 def escaper_failures(ctx, rule):
     """Evaluate the text escaper (abstractly, in the analyser's evaluator) over an adversarial alphabet.
     -> (escaper FuncInfo, samples, [(source, got, expected)])"""
@@ -349,6 +410,7 @@ def run(ctx):
     rules.append(r9)
     from .c13 import cell_cleaning_rule
     rules.append(cell_cleaning_rule(ctx, "C06", "C06.R10"))
+    rules.append(_splice_rule(ctx))
     from .c10 import _classifier_rule
     rules.append(_classifier_rule(ctx, "C06", "C06.R11"))
     return rules
